@@ -111,6 +111,13 @@ def main(chk: core.Check) -> int:
                 chk.obligation_broken("correspondence", "Lean raw parser model vs native build (outcome class / arrays per buffer)", str(diffs[:3]))
         except core.DriverError as ex:
             chk.obligation_broken("correspondence", "Raw driver", str(ex))
+    # how much of the parser the generated buffers reach (source-based coverage build of the same driver; without sanitizers a buffer that
+    # crashes the parser ends that process, the measurement continues after it)
+    if not chk.failing:
+        try:
+            chk.coverage["cpp_coverage_of_generated_buffers"] = native.raw_cpp_coverage(bufs)
+        except Exception as ex:
+            chk.coverage["cpp_coverage_of_generated_buffers"] = {"error": f"{type(ex).__name__}: {str(ex)[:200]}"}
     chk.sample({"kind": kinds[10], "n_words": len(bufs[10][0]), "head": [hex(x) for x in bufs[10][0][:12]]})
     chk.sample({"kind": kinds[-1], "words": [hex(x) for x in bufs[-1][0][:12]]})
     return chk.finish(None)
